@@ -270,6 +270,13 @@ func c13Body(c *mc.Ctx, media, scheme string, maxN int) {
 		spec.crit = append(spec.crit, l)
 		recorded = true
 	}
+	// the same header in another spelling of its names, or of the entries of crit (see C07): acceptance is not judged, what an accepted
+	// envelope reports is
+	if sp := c.Choose("spelling", 3); sp != 0 {
+		spec.respell = []string{"", "labels", "crit-entries"}[sp]
+		c.Cover("spelling:" + spec.respell)
+		recorded = true
+	}
 	env, _, _, valid := spec.encode(nil, "")
 	if !valid {
 		panic(mc.HarnessError{Msg: "C13: invalid signature from the encoder"})
@@ -284,6 +291,9 @@ func c13Body(c *mc.Ctx, media, scheme string, maxN int) {
 	vok := vperr == nil && verr == nil
 	cok := cperr == nil && cerr == nil
 	c.Outcome(fmt.Sprintf("verify=%v content=%v", vok, cok))
+	if spec.respell != "" {
+		c.Outcome(fmt.Sprintf("spelling-of-%s(%s):verify=%v", spec.respell, mediaShort(media), vok))
+	}
 	if c.Tracing() {
 		var d []string
 		for _, e := range cont.Ext {
